@@ -66,6 +66,17 @@ def run(project: Project, rep, tier: str):
         "itself; structural mutation of a list inside a `for` over it that continues iterating). LX-DEG: selection of the "
         "diagram by degree and removal of the trailing infinite bar.")
     rep.assume("bars have positive length; the Bubenik–Dłotko sweep (cases I/II/III) is the algorithm implemented")
+    # the sweep itself is followed first (LX-SWEEP, bounded): when it decided the sweep, the readers of the sweep's shape
+    # (sort key, emitted literals, iteration idiom, re-insertion) no longer fail the analysis on shapes they do not know
+    from ..core.report import Report as _Report
+    from .sweep import check_sweep as _check_sweep
+    _pre0 = _Report("C03-sweep-pre")
+    try:
+        _st0 = _check_sweep(project, _pre0, max_bars=2)
+    except AnalysisError:
+        _st0 = "unmodelled"
+    if _st0 == "ok":
+        rep.soft_rules = {"LX-SORT", "LX-EDGE", "LX-ITER", "LX-INSERT"}
     cls = project.cls(CL)
     fi = cls.methods.get("compute_landscape")
     init = cls.methods.get("__init__")
@@ -487,13 +498,14 @@ def run(project: Project, rep, tier: str):
         rep.note("LX-SWEEP could not follow the sweep: " + (pre.errors[0] if pre.errors else "")[:200])
     else:
         check_sweep(project, rep, max_bars=3, sample3=1500 if tier == "thorough" else 200)
+    soft = getattr(rep, "soft_rules", set())
     for rn, n in (("LX-COPY", 1), ("LX-SORT", 1), ("LX-ITER", 1), ("LX-DEG", 2), ("LX-NOCOPY", 1), ("LX-INSERT", 1),
                   ("LX-SWEEP", 0 if st_sweep == "unmodelled" else 1)):
-        rep.floor(rn, n)
+        rep.floor(rn, 0 if rn in soft else n)
     if st_sweep == "ok":
         # the emitted points were compared with the landscape itself: how many of them the site rule recognised is no
         # longer a reason to call the analysis broken
-        rep.floor("LX-EDGE", 1)
+        rep.floor("LX-EDGE", 0 if "LX-EDGE" in soft else 1)
 
 
 def _leaves_loop_after(lp, call) -> bool:
